@@ -69,3 +69,11 @@ Section Checks.
     let m := @sample_poisson_disk FNum V pts (map Z.to_nat working) r in
     if forallb (fun p => Z.eqb (Z.of_nat (fst p)) (snd p)) (combine m keep) && Nat.eqb (length m) (length keep) then 0%Z else 1%Z.
 End Checks.
+
+(* engeom's own hull logic (Model/Hull.v): 0 agree; 7 the order vote differs; 8 the farthest pair differs *)
+From EG Require Import Model.Hull.
+Definition check_order (hull : list Z) (ccw : bool) : Z :=
+  if Bool.eqb (order_ccw (map Z.to_nat hull)) ccw then 0%Z else 7%Z.
+Definition check_farthest (poly : list (@V2 FNum)) (i j : Z) : Z :=
+  let r := @farthest_pair FNum poly in
+  if (Nat.eqb (fst r) (Z.to_nat i) && Nat.eqb (snd r) (Z.to_nat j))%bool then 0%Z else 8%Z.
